@@ -310,6 +310,38 @@ func (fr *Frame) applyCallAnn(a *CallAnn, recv *Val, args []Val, ret *Val, pre, 
 		c.top.Reveal[p.Name] = was
 		c.assume(R, env.evalBool(fd.E))
 	}
+	for i, rc := range a.Reached {
+		// completeness of emission: whenever the enclosing loop iteration (or the function) starts and the condition
+		// holds, control reaches this call - the code cannot skip it on a path the condition covers
+		label := rc.Label
+		if label == "" {
+			label = fmt.Sprintf("reached%d", i+1)
+		}
+		base := fr.entryR
+		if fr.curBlock != nil {
+			var best *loopInfo
+			for _, li := range fr.loops {
+				if li.blocks[fr.curBlock] && li.headR != "" && (best == nil || len(li.blocks) < len(best.blocks)) {
+					best = li
+				}
+			}
+			if best != nil {
+				// the guard under which the body of the iteration is entered: the header's successor inside the loop
+				base = best.headR
+				for _, sc := range best.header.Succs {
+					if best.blocks[sc] && sc != best.header {
+						if r, ok := fr.blockR[sc]; ok {
+							base = r
+						}
+					}
+				}
+			}
+		}
+		if base == "" {
+			base = "true"
+		}
+		c.oblige("reached", fr.oblName(fmt.Sprintf("at{%s}.%s", a.Callee, label)), tAnd(base, env.evalBool(rc.E)), R)
+	}
 	for i, as := range a.Asserts {
 		label := as.Label
 		if label == "" {
@@ -424,6 +456,7 @@ func (c *Ctx) detResults(key string, res *types.Tuple, args []Val) []Val {
 		}
 	}
 	var out []Val
+	underBinder := false
 	for i := 0; i < res.Len(); i++ {
 		T := res.At(i).Type()
 		v := Val{T: T}
@@ -436,15 +469,25 @@ func (c *Ctx) detResults(key string, res *types.Tuple, args []Val) []Val {
 			} else {
 				t = app(fn, terms...)
 			}
-			d := c.define("det", l.Sort, t)
+			bound := strings.Contains(t, "!q") || strings.Contains(t, "@P")
+			d := t
+			if !bound {
+				// (under a binder the application is used as it is: a definition would capture the bound variable)
+				d = c.define("det", l.Sort, t)
+			}
 			if l.Sort == SRef {
-				if a0, ok := c.initial["alloc"]; ok && !strings.Contains(d, "!q") {
+				if a0, ok := c.initial["alloc"]; ok && !bound {
 					c.assume("true", tSel(a0, d)) // canonical objects of deterministic externs exist throughout
 				}
 			}
+			if bound {
+				underBinder = true
+			}
 			v.L = append(v.L, d)
 		}
-		c.assumeValid("true", v)
+		if !underBinder {
+			c.assumeValid("true", v)
+		}
 		out = append(out, v)
 	}
 	return out
